@@ -6,13 +6,13 @@ From TxVerif Require Import Lib.Bytes Lib.CfgLib Spec.CfgTypes Spec.TorStore Spe
 Import ListNotations.
 Open Scope N_scope.
 
-Definition is_save (o : op) : bool := match o with OpSave _ => true | _ => false end.
+Definition is_save (o : op) : bool := match o with OpSave _ | OpSaveDuring _ _ => true | _ => false end.
 
 (* ---- silent until save: one step ---- *)
 Lemma step_silent names st o st' ob :
   m_step names st o = Some (st', ob) -> is_save o = false -> o_wrote ob = [].
 Proof.
-  intros H Hs. destruct o; cbn [is_save] in Hs; try discriminate; cbn [m_step] in H.
+  intros H Hs. destruct o; cbn [is_save] in Hs; try discriminate; cbn [m_step m_step_gen] in H.
   - destruct (m_setattr st name v) as [s1|k|]; inversion H; reflexivity.
   - destruct (m_listop st name o) as [[s1 [k|]]|k|]; inversion H; reflexivity.
   - destruct (m_read st name) as [[s1 [v|k]]|]; inversion H; reflexivity.
@@ -352,10 +352,10 @@ Proof.
   unfold unsaved_wf. cbn [with_unsaved m_unsaved]. now apply NoDup_keys_dset.
 Qed.
 
-Lemma step_wf names st o st' ob :
-  m_step names st o = Some (st', ob) -> unsaved_wf st -> unsaved_wf st'.
+Lemma step_wf_base names st o st' ob :
+  m_step_base names st o = Some (st', ob) -> unsaved_wf st -> unsaved_wf st'.
 Proof.
-  intros H Hwf. destruct o; cbn [m_step] in H.
+  intros H Hwf. destruct o; cbn [m_step_base m_step_gen] in H; [| | | | | | | |discriminate].
   - (* assign *)
     destruct (m_setattr st name v) as [s1|k|] eqn:E; inversion H; subst; [|assumption].
     eapply setattr_wf; eassumption.
@@ -410,6 +410,84 @@ Proof.
     assert (unsaved_wf sg) as Hsg by (unfold unsaved_wf; now rewrite Hu).
     match type of H with match ?r with _ => _ end = _ => destruct r as [s2|k|] eqn:E end; inversion H; subst; [|assumption].
     eapply setattr_wf; eassumption.
+Qed.
+
+(* ---- operations while a save is unanswered: an invariant of the ordinary operations, of the
+        save loop and of "unsaved = {}" is an invariant of OpSaveDuring ---- *)
+Lemma m_inner_inv (P : mst -> Prop) names :
+  (forall st o st' ob, m_step_base names st o = Some (st', ob) -> P st -> P st') ->
+  (forall st st' c, m_send st = Some (st', c) -> P st -> P st') ->
+  forall ds st out st' rs cs out', m_inner names st out ds = Some (st', rs, cs, out') -> P st -> P st'.
+Proof.
+  intros Hop Hsend. induction ds as [|d ds IH]; intros st out st' rs cs out' H HP; cbn [m_inner] in H.
+  - inversion H. subst. exact HP.
+  - destruct (op_of_dop d) as [o|].
+    + destruct (m_step_base names st o) as [[st1 ob]|] eqn:E; [|discriminate].
+      destruct (o_wrote ob); [|discriminate]. destruct (ires_of_ores (o_res ob)); [|discriminate].
+      match type of H with match m_inner names st1 ?o1 ds with _ => _ end = _ =>
+        destruct (m_inner names st1 o1 ds) as [[[[st2 rs2] cs2] out2]|] eqn:E2 end; [|discriminate]. inversion H. subst.
+      eapply IH; [exact E2|]. eapply Hop; eassumption.
+    + destruct (m_send st) as [[st1 c]|] eqn:E; [|discriminate].
+      match type of H with match m_inner names st1 ?o1 ds with _ => _ end = _ =>
+        destruct (m_inner names st1 o1 ds) as [[[[st2 rs2] cs2] out2]|] eqn:E2 end; [|discriminate]. inversion H. subst.
+      eapply IH; [exact E2|]. eapply Hsend; eassumption.
+Qed.
+
+(* the acknowledgement only removes entries of `unsaved` *)
+Lemma m_ack_inv (P : mst -> Prop) :
+  (forall st f, P st -> P (with_unsaved st (filter f (m_unsaved st)))) ->
+  forall outs st, P st -> P (fold_left m_ack outs st).
+Proof.
+  intros Hdel. induction outs as [|o outs IH]; intros st HP; [exact HP|]. cbn [fold_left]. apply IH.
+  unfold m_ack. now apply Hdel.
+Qed.
+
+Lemma m_flight_inv (P : mst -> Prop) names :
+  (forall st o st' ob, m_step_base names st o = Some (st', ob) -> P st -> P st') ->
+  (forall st st' c, m_send st = Some (st', c) -> P st -> P st') ->
+  (forall st f, P st -> P (with_unsaved st (filter f (m_unsaved st)))) ->
+  (forall st st' rs, m_snapshot st names = Some (st', rs) -> P st -> P st') ->
+  forall st rej ds st' ob, m_flight names st rej ds = Some (st', ob) -> P st -> P st'.
+Proof.
+  intros Hop Hsend Hdel Hsnap st rej ds st' ob H HP. unfold m_flight in H.
+  destruct (m_send st) as [[st0 c0]|] eqn:E0; [|discriminate].
+  match type of H with match m_inner names st0 ?o0 ds with _ => _ end = _ =>
+    destruct (m_inner names st0 o0 ds) as [[[[st1 rs] cs] out]|] eqn:E1 end; [|discriminate].
+  assert (P st1) as H1 by (eapply m_inner_inv; [exact Hop|exact Hsend|exact E1|eapply Hsend; eassumption]).
+  match type of H with match m_snapshot ?s _ with _ => _ end = _ => assert (P s) as H2 end.
+  { destruct rej; [exact H1|]. now apply m_ack_inv. }
+  match type of H with match m_snapshot ?s ?n with _ => _ end = _ => destruct (m_snapshot s n) as [[st3 snap]|] eqn:E3 end; [|discriminate].
+  inversion H. subst. eapply Hsnap; eassumption.
+Qed.
+
+Lemma NoDup_keys_filter {A} (f : bytes * A -> bool) (d : list (bytes * A)) : NoDup (map fst d) -> NoDup (map fst (filter f d)).
+Proof.
+  induction d as [|[k0 v0] d IH]; cbn [filter map fst]; [auto|]. intros H. inversion H as [|? ? Hn Hd]. subst.
+  destruct (f (k0, v0)); [|now apply IH]. cbn [map fst]. constructor; [|now apply IH].
+  intros Hin. apply Hn. apply in_map_iff in Hin as [[k1 v1] [E Hin]]. apply filter_In in Hin as [Hin _].
+  cbn [fst] in E. subst k1. now apply (in_map fst) in Hin.
+Qed.
+
+Lemma m_send_wf st st' c : m_send st = Some (st', c) -> unsaved_wf st -> unsaved_wf st'.
+Proof.
+  intros H Hwf. unfold m_send in H. destruct (m_unsaved st) as [|it items] eqn:EU; [inversion H; subst; exact Hwf|].
+  rewrite <- EU in H. destruct (save_loop st (m_unsaved st) []) as [[sl args]|k|] eqn:EL; try discriminate.
+  destruct (save_loop_whole st sl args Hwf EL) as [_ [Hkeys _]].
+  destruct (existsb (fun kv : bytes * bytes => key_refused (fst kv)) args); [discriminate|].
+  inversion H. subst. unfold unsaved_wf. rewrite Hkeys. exact Hwf.
+Qed.
+
+Lemma step_wf names st o st' ob :
+  m_step names st o = Some (st', ob) -> unsaved_wf st -> unsaved_wf st'.
+Proof.
+  intros H Hwf. destruct o as [? ?|? ?|?|?| |?| |? ?|rj dz];
+    try (match type of H with m_step _ _ ?o = _ => exact (step_wf_base names st o st' ob H Hwf) end).
+  cbn [m_step m_step_gen] in H.
+  refine (m_flight_inv unsaved_wf names _ _ _ _ st rj dz st' ob H Hwf).
+  - intros s o s' ob'. apply step_wf_base.
+  - intros s s' c. apply m_send_wf.
+  - intros s f Hw. unfold unsaved_wf. cbn [with_unsaved m_unsaved]. now apply NoDup_keys_filter.
+  - intros s s' rs Hs Hw. unfold unsaved_wf. now rewrite (snapshot_unsaved _ _ _ _ Hs).
 Qed.
 
 (* after bootstrap nothing is pending *)
@@ -512,6 +590,51 @@ Lemma falsy_example :
     /\ concat (map o_wrote tr) = [bs "SETCONF Log=0 Log= Log=x"].
 Proof. split; [vm_compute; reflexivity|]. split; [vm_compute; reflexivity|].
        eexists _, _. split; [vm_compute; reflexivity|]. split; vm_compute; reflexivity. Qed.
+
+(* former F5 (repaired by df54f2d): NumCPUs = 4; save() sends it; NumCPUs = 8 while the SETCONF is unanswered;
+   Tor acknowledges: the 8 is still pending and the next save sends it *)
+Definition w_f5 := w_input [OpAssign (bs "NumCPUs") (PAtom (AInt 4%Z)); OpSaveDuring None [DAssign (bs "NumCPUs") (PAtom (AInt 8%Z))];
+                            OpNeedsSave; OpSave None].
+Lemma f5_now_accepted :
+  c10_scope w_f5 = true /\ c10_known w_f5 = false /\
+  exists snap tr, model_run w_f5 = Some (true, snap, tr) /\ oracle w_f5 tr = true
+    /\ concat (map o_wrote tr) = [bs "SETCONF NumCPUs=4"; bs "SETCONF NumCPUs=8"]
+    /\ nth_error (map o_res tr) 2 = Some (XBool true).
+Proof. split; [vm_compute; reflexivity|]. split; [vm_compute; reflexivity|].
+       eexists _, _. split; [vm_compute; reflexivity|]. repeat split; vm_compute; reflexivity. Qed.
+(* ... and an in-place edit in that window is pending afterwards as well *)
+Definition w_f5l := w_input [OpListOp (bs "Log") (LAppend (AStr (bs "a")));
+                             OpSaveDuring None [DListOp (bs "Log") (LAppend (AStr (bs "b"))); DAssign (bs "NumCPUs") (PAtom (AInt 8%Z))];
+                             OpNeedsSave; OpSave None].
+Lemma f5l_now_accepted :
+  c10_scope w_f5l = true /\ c10_known w_f5l = false /\
+  exists snap tr, model_run w_f5l = Some (true, snap, tr) /\ oracle w_f5l tr = true
+    /\ concat (map o_wrote tr) = [bs "SETCONF Log=""notice stdout"" Log=a"; bs "SETCONF Log=""notice stdout"" Log=a Log=b NumCPUs=8"].
+Proof. split; [vm_compute; reflexivity|]. split; [vm_compute; reflexivity|].
+       eexists _, _. split; [vm_compute; reflexivity|]. repeat split; vm_compute; reflexivity. Qed.
+(* the same with a rejected answer, plus an in-place edit and a second save() before the answer: everything
+   stays pending; the second SETCONF (written once the first is answered) and the next save carry it all *)
+Definition w_flight_rej := w_input [OpAssign (bs "NumCPUs") (PAtom (AInt 4%Z));
+                                    OpSaveDuring (Some 552) [DAssign (bs "NumCPUs") (PAtom (AInt 8%Z));
+                                                             DListOp (bs "Log") (LAppend (AStr (bs "x"))); DSave; DNeedsSave];
+                                    OpNeedsSave; OpSave None; OpNeedsSave].
+Lemma flight_rej_example :
+  c10_scope w_flight_rej = true /\ c10_known w_flight_rej = false /\
+  exists snap tr, model_run w_flight_rej = Some (true, snap, tr) /\ oracle w_flight_rej tr = true
+    /\ concat (map o_wrote tr) = [bs "SETCONF NumCPUs=4"; bs "SETCONF NumCPUs=8 Log=""notice stdout"" Log=x";
+                                  bs "SETCONF NumCPUs=8 Log=""notice stdout"" Log=x"].
+Proof. split; [vm_compute; reflexivity|]. split; [vm_compute; reflexivity|].
+       eexists _, _. split; [vm_compute; reflexivity|]. split; vm_compute; reflexivity. Qed.
+(* an acknowledged save with only reads / needs_save() / a second save() in between *)
+Definition w_flight_ack := w_input [OpAssign (bs "NumCPUs") (PAtom (AInt 4%Z));
+                                    OpSaveDuring None [DNeedsSave; DRead (bs "numcpus"); DSave]; OpNeedsSave; OpSave None].
+Lemma flight_ack_example :
+  c10_scope w_flight_ack = true /\ c10_known w_flight_ack = false /\
+  exists snap tr, model_run w_flight_ack = Some (true, snap, tr) /\ oracle w_flight_ack tr = true
+    /\ concat (map o_wrote tr) = [bs "SETCONF NumCPUs=4"; bs "SETCONF NumCPUs=4"]
+    /\ nth_error (map o_res tr) 2 = Some (XBool false).
+Proof. split; [vm_compute; reflexivity|]. split; [vm_compute; reflexivity|].
+       eexists _, _. split; [vm_compute; reflexivity|]. repeat split; vm_compute; reflexivity. Qed.
 
 Lemma f3_refuted : refutes w_f3 /\ edit_while_detached w_f3 = true.
 Proof. split; [split; [vm_compute; reflexivity|]|vm_compute; reflexivity].
